@@ -980,7 +980,7 @@ class Analysis:
                 m = (tuple((v, -k) for v, k in c[0]), -c[1])
                 if m not in hs:
                     hs.append(c)
-            if 2 <= len(hs) <= 8:
+            if 2 <= len(hs) <= getattr(self, "karr_cap", 8):
                 ys = [_lin_of_con(c) for c in self._eq_halves(Y)]
                 vals = [_affine_value(ys, _lin_of_con(c)) for c in hs]
                 for i in range(len(hs)):
